@@ -57,7 +57,10 @@ def tree_of(p: Path):
 
 def walk(skel, value, kind_cls, path="", out=None, errs=None):
     """parallel walk of the expected skeleton and the observed value; collects (token, leaf, where)"""
-    if isinstance(skel, str):
+    if skel is None or isinstance(skel, (int, float)):
+        if value != skel or type(value) is not type(skel):
+            errs.append(f"{path or '.'}: expected the non-file member {skel!r}, got {value!r:.120}")
+    elif isinstance(skel, str):
         if type(value) is not kind_cls:
             errs.append(f"{path or '.'}: expected a {kind_cls.__name__}, got {type(value).__name__} {value!r:.120}")
         else:
